@@ -53,7 +53,8 @@ THEOREMS = [
     'C04_compose_affine', 'C04_compose_mcnp_iff',
     'C04_compose_not_mcnp_composition_in_general',
     'C04_compose_translation_second', 'C04_lattice_filltr_fill',
-    'C04_lattice_filltr_trcl',
+    'C04_lattice_filltr_trcl', 'C04_frame_transform_torus_total',
+    'C04_adjust_matrix_near_orthonormal', 'C04_adjust_matrix_idempotent',
 ]
 TRUSTED = [
     'hand-written model coq/C04/Model.v (modelled, tied by execution only)',
